@@ -563,6 +563,33 @@ where
             std::mem::forget(a);
             r
         }
+        9 => {
+            // dst.clone_from(&src): the destination (identities 100..) is the caller's the whole time; when a
+            // clone() panics it must still hold its old elements, all of them alive
+            let a: GenericArray<E, N> = arr(0);
+            let mut d: GenericArray<E, N> = arr(100);
+            start = track::log_len();
+            track::arm_clone(if pan >= 0 { Some(pan as u64) } else { None });
+            let r = catch(std::panic::AssertUnwindSafe(|| d.clone_from(&a)));
+            track::arm_clone(None);
+            sources = ids(a.iter());
+            std::mem::forget(a);
+            match r {
+                Ok(()) => {
+                    let result = ids(d.iter());
+                    for e in d {
+                        e.release()
+                    }
+                    Outcome { ok: true, result }
+                }
+                Err(_) => {
+                    // not read, not dropped: a destination emptied by the callee must not be touched here
+                    sources.extend((100..100 + n as i64).collect::<Vec<i64>>());
+                    std::mem::forget(d);
+                    Outcome { ok: false, result: vec![] }
+                }
+            }
+        }
         5 => {
             start = track::log_len();
             track::arm_clone(if pan >= 0 { Some(pan as u64) } else { None });
@@ -639,7 +666,7 @@ where
             extra_obs.push(-5); // the closure's own drop of an argument is missing from the log
         }
     }
-    if op == 4 || op == 6 {
+    if op == 4 || op == 6 || op == 9 {
         // the callback is Clone::clone: the call log is the sequence of clone attempts
         for e in &log {
             if let track::Ev::Clone(from, _) = e {
